@@ -163,7 +163,11 @@ def check_next(ctx, F, hty, size_off, label, rule_prefix="T"):
             return True         # (what that answer means)
         return f[0] == "is_some" and f[1][0] == "call" and cn(f[1][1]) == "core::slice::get" and len(f[1][2]) == 2 and f[1][2][0] == buf and \
             f[1][2][1][0] == "aggr" and f[1][2][1][1][1] == "core::ops::range::RangeFrom" and f[1][2][1][2] == (off,)
-    g = len(nones) == 1 and len(somes) == 1 and any(is_end_test(f) for f in nones[0].own) and \
+    def is_end_test_under(f, facts_):
+        # `assert!(offset <= len); if offset >= len { return None }`: under offset <= len the test offset >= len is offset == len
+        return N(f) in (("cmp", "Ge", off, ("len", buf)), ("cmp", "Le", ("len", buf), off)) and \
+            any(N(x) in (("cmp", "Le", off, ("len", buf)), ("cmp", "Ge", ("len", buf), off)) for x in facts_ if x is not f)
+    g = len(nones) == 1 and len(somes) == 1 and any(is_end_test(f) or is_end_test_under(f, nones[0].facts) for f in nones[0].own) and \
         all(is_rest_exists(f) for f in nones[0].facts if f not in nones[0].own)
     ctx.check(g, rule_prefix + "4", label + ":end", "next() returns None exactly when offset == buffer.len(), as its first test", A.site(), how=str(nones)[:200], why=str(ex)[:400])
     # raw header read
